@@ -115,6 +115,21 @@ def is_str(v):
     return isinstance(v, (str, SStr))
 
 
+class SUnb:
+    """A string of unknown (unbounded) length and content.  Only total library operations are
+    defined on it (slicing, strip, partition, truthiness, len, ==): each yields fresh
+    unconstrained results, a sound over-approximation.  A regex test on it forks; the
+    'matches' side is handed over to the shaped-string harnesses (see regex_match)."""
+
+    __slots__ = ("name",)
+
+    def __init__(self, name):
+        self.name = name
+
+    def __repr__(self):
+        return f"<SUnb {self.name}>"
+
+
 class SObj:
     """An instance of the real class `cls` whose attributes may be symbolic."""
 
@@ -212,7 +227,7 @@ class STd:
 def is_symbolic(v, _depth=0):
     """Deep check: does v contain anything symbolic / engine-owned?"""
     if isinstance(v, (SBool, SInt, SFloat, SStr, SObj, SSet, SFunc, SBound, SSuper,
-                      SMatch, Opaque, SDt, STd)):
+                      SMatch, Opaque, SDt, STd, SUnb)):
         return True
     if _depth > 6:
         return False
